@@ -768,9 +768,8 @@ impl ProtoTKVisitor for UnpackMessageVisitor {
                     let num: u32 = tag.field_number.into();
                     match (num, tag.wire_type) {
                         #(#field_blocks)*
-                        (_, _) => {
-                            return Err(::prototk::unknown_discriminant(num).into());
-                        },
+                        // A field this reader does not know is skipped, as in a message.
+                        (_, _) => {},
                     }
                 }
                 if let Some(error) = error {
